@@ -163,6 +163,29 @@ LMap(l, a) ==
      Push(Stmt("lmap", "", l, a, 0, ""), LT(T),
           VList([j \in 1..Len(env[l].xs) |-> VInt(Add(env[l].xs[j].v, env[a].v))])) /\ UNCHANGED status
 
+\* f<n>(i: Int) = if <lit> op i, do i, do <els>   (form "li")   or   if i op <lit>, ... (form "il");  v<n> = f<n>(v_a)
+\* the checker narrows i in the then-branch by the comparison; the value is i or the else literal
+IfG(form, op, lit, els, a) ==
+  /\ Go /\ "ifg" \in Templates /\ a \in Ints /\ Small(a)
+  /\ LET l == VInt(FromInt(lit))
+         c == IF form = "li" THEN Val(op, l, env[a]) ELSE Val(op, env[a], l)
+     IN Push(Stmt("ifg", op, a, 0, els, form \o "," \o ToString(lit)), "Int", IF c.b THEN env[a] ELSE VInt(FromInt(els)))
+  /\ UNCHANGED status
+\* v<n> = v_l.push(v_a)     -- an immutable list: a new list, the old binding keeps its value
+LPushI(l, a) ==
+  /\ Go /\ "lpushi" \in Templates /\ l \in WithT(ListTs) /\ a \in Nums /\ Len(env[l].xs) < 4
+  /\ Push(Stmt("lpushi", "", l, a, 0, ""), LT(JoinT(ElemT(ty[l]), ty[a])), VList(Append(env[l].xs, env[a]))) /\ UNCHANGED status
+\* v<n> = (v_a op v_b).m()     -- a method called on an operator expression
+OpMeth(op, m, a, b) ==
+  /\ Go /\ "opmeth" \in Templates /\ a \in Ints /\ b \in Ints
+  /\ LET r == Val(op, env[a], env[b]) IN
+     /\ r.t \notin {"skip", "zde"}
+     /\ LET x == r.v IN
+        CASE m = "abs" -> Push(Stmt("opmeth", op, a, b, 0, m), "Nat", VInt(IF x.neg THEN Neg(x) ELSE x))
+          [] m = "succ" -> Push(Stmt("opmeth", op, a, b, 0, m), "Int", VInt(Add(x, FromInt(1))))
+          [] m = "pred" -> Push(Stmt("opmeth", op, a, b, 0, m), "Int", VInt(Sub(x, FromInt(1))))
+  /\ UNCHANGED status
+
 \* the most precise class-level type of a value
 RECURSIVE MinT(_)
 MinT(v) == CASE v.t = "int" -> (IF v.v.neg THEN "Int" ELSE "Nat")
@@ -181,7 +204,7 @@ Inject(kind, d, op, a, b) ==
                              /\ RT(op, MinT(env[a]), MinT(env[b])) = "none"
        [] kind = "argty" -> /\ a \in WithT(NumT \cup {"Str"}) /\ op \in {"Nat", "Int"} /\ ~SubT(ty[a], op) /\ b = a
                              /\ ~Member(env[a], op)            \* definite: the value itself is outside the parameter type
-       [] kind = "arity" -> a \in Nums /\ op \in {"1", "3"} /\ b = a
+       [] kind \in {"arity", "arityf"} -> a \in Nums /\ op \in {"1", "3"} /\ b = a
        [] kind = "undef" -> a \in 1..N /\ ty[a] # "none" /\ op = "+" /\ b = a
        [] kind = "noattr" -> a \in 1..N /\ ty[a] # "none" /\ op = "nosuch" /\ b = a
   /\ Push(Stmt("inject", op, a, b, d, kind), "none", None)
@@ -195,7 +218,8 @@ Next ==
   \/ \E a, b \in 1..N :
         \/ \E op \in Ops \cup {"/"} : Bin(op, a, b) \/ \E T, U \in NumT : Fn(op, T, U, a, b)
         \/ \E op \in CmpOpsP : Cmpr(op, a, b)
-        \/ SCat(a, b) \/ SMul(a, b) \/ LMk(a, b) \/ LCat(a, b) \/ LMap(a, b)
+        \/ SCat(a, b) \/ SMul(a, b) \/ LMk(a, b) \/ LCat(a, b) \/ LMap(a, b) \/ LPushI(a, b)
+        \/ \E op \in {"+", "-", "*", "//", "%"}, m \in {"abs", "succ", "pred"} : OpMeth(op, m, a, b)
         \/ \E c \in 1..N, i \in 0..2 : LPush(a, b, c, i)
         \/ \E kind \in InjectKinds, d \in Depths, op \in Ops \cup {"Nat", "Int", "1", "3", "nosuch"} : Inject(kind, d, op, a, b)
   \/ \E a \in 1..N :
@@ -203,6 +227,7 @@ Next ==
         \/ \E m \in {"abs", "succ", "pred"} : Meth(m, a)
         \/ \E T \in NumT : Ann(T, a)
         \/ \E i \in 0..4 : LGet(a, i)
+        \/ \E form \in {"li", "il"}, op \in CmpOpsP, lit \in {0, 2}, els \in {0} : IfG(form, op, lit, els, a)
 Spec == Init /\ [][Next]_vars
 
 \* ---- design-level properties, checked by TLC
